@@ -10,6 +10,7 @@ import json, os, re, glob, subprocess
 from vlib import core, httpgen as hg
 
 KINDS = ["ok", "invalid", "declared", "undeclared", "plain"]
+REPO_ROOTS = ["/repo"]
 
 
 def design():
@@ -53,7 +54,7 @@ def scrub(x):
 
 
 def signature(events):
-    return core.canon(scrub([e for e in events if e.get("ev") in ("client_call", "wire_req", "invoke", "service_return", "wire_resp", "client_return")]))
+    return core.canon(scrub([e for e in events if e.get("ev") in ("client_call", "wire_req", "mw_lookup", "invoke", "service_return", "wire_resp", "client_return")]))
 
 
 def race_reports(prefix):
@@ -62,8 +63,15 @@ def race_reports(prefix):
         txt = open(f, errors="replace").read()
         for block in txt.split("WARNING: DATA RACE")[1:]:
             n += 1
-            m = re.search(r"\n  ([^\n]+)\(\)\n\s+(/repo/[^\s:]+):(\d+)", block)
-            tops.append("%s@%s:%s" % (m.group(1).strip(), m.group(2).replace("/repo/", ""), m.group(3)) if m else "unknown")
+            m = re.search(r"\n  ([^\n]+)\(\)\n\s+(/[^\s:]+\.go):(\d+)", block)
+            if m:
+                f = m.group(2)
+                for root in REPO_ROOTS:
+                    if f.startswith(root + "/"):
+                        f = f[len(root) + 1:]
+                tops.append("%s@%s:%s" % (m.group(1).strip(), f, m.group(3)))
+            else:
+                tops.append("unknown")
     return n, tops
 
 
@@ -78,6 +86,7 @@ def run_bin(ctx, binp, cwd, args, tag):
 
 def run(ctx):
     quick = ctx.quick()
+    REPO_ROOTS.append(ctx.repo)
     ctx.cov["rule"] = ("cases = schedules (order in which K gated request goroutines pass decode/invoke/encode) x request kinds enumerated by TLC from "
                        "Concurrency.tla, replayed under the race detector, plus load batches; non-trivial = a schedule with at least one preemption between two "
                        "requests' steps; distinct = canonical JSON of (kinds, order)")
@@ -108,7 +117,7 @@ def run(ctx):
     scns = scenarios()
     open(os.path.join(cwd, "scn.ndjson"), "w").write("".join(json.dumps(s) + "\n" for s in scns))
     # 1. sequential baseline
-    run_bin(ctx, binp, cwd, ["-in", "scn.ndjson", "-out", "base.ndjson"], "base")
+    run_bin(ctx, binp, cwd, ["-mwlookup", "-in", "scn.ndjson", "-out", "base.ndjson"], "base")
     base = {}
     for l in open(os.path.join(cwd, "base.ndjson")):
         o = json.loads(l)
@@ -119,7 +128,7 @@ def run(ctx):
         kinds = v["kinds"]
         scheds.append({"id": "s%d" % n, "procs": ["%s#%d" % (k, i + 1) for i, k in enumerate(kinds)], "order": v["order"]})
     open(os.path.join(cwd, "sched.ndjson"), "w").write("".join(json.dumps(s) + "\n" for s in scheds))
-    nrace, tops = run_bin(ctx, binp, cwd, ["-in", "scn.ndjson", "-out", "sched-out.ndjson", "-schedules", "sched.ndjson"], "sched")
+    nrace, tops = run_bin(ctx, binp, cwd, ["-mwlookup", "-in", "scn.ndjson", "-out", "sched-out.ndjson", "-schedules", "sched.ndjson"], "sched")
     ctx.log("replayed %d schedules under -race: %d race report(s)" % (len(scheds), nrace))
     trace, nontrivial, echo_bad, mism = [], set(), 0, 0
     byid = {s["id"]: s for s in scheds}
@@ -160,7 +169,7 @@ def run(ctx):
     ctx.sample({"schedule": scheds[len(scheds) // 2], "kinds": vectors[len(scheds) // 2]["kinds"]})
     # 3. load
     par, rounds = (32, 40) if quick else (64, 400)
-    nrace2, tops2 = run_bin(ctx, binp, cwd, ["-in", "scn.ndjson", "-out", "load.ndjson", "-parallel", str(par), "-rounds", str(rounds)], "load")
+    nrace2, tops2 = run_bin(ctx, binp, cwd, ["-mwlookup", "-in", "scn.ndjson", "-out", "load.ndjson", "-parallel", str(par), "-rounds", str(rounds)], "load")
     nload = 0
     for l in open(os.path.join(cwd, "load.ndjson")):
         o = json.loads(l)
